@@ -10,6 +10,7 @@ closure / flatten.
 Node keys: even 2i = plain node P[i]; odd 2r+1 = the graph object in register r.
 '''
 import json
+import signal
 
 from vp import common
 
@@ -93,7 +94,7 @@ def ref_graft(g, k, sub):
     if not sub.n:
         for dee in dees:
             for dep in deps:
-                if dee != k and dep != k:
+                if dee != k and dep != k and dee != dep:   # never a self-dependency
                     g.add_dep(dee, dep)
 
 
@@ -242,6 +243,9 @@ def gen_history(rng, length, corpus_prefix=None):
         apply_ref(trial, op)
         if contains_cycle(trial):
             continue
+        if op[0] in ('add_dep', 'merge', 'graft') and trial[op[1]].cyclic() \
+                and not world[op[1]].cyclic() and rng.random() < 0.8:
+            continue          # keep most graphs acyclic
         emit(op)
     ops.append(['end', 0 if rng.random() < 0.7 else rng.randrange(len(world))])
     return ops
@@ -288,6 +292,14 @@ def apply_ref(world, op):
 
 
 # ---------------------------------------------------------------- running
+class Endless(BaseException):
+    pass
+
+
+def _alarm(signum, frame):
+    raise Endless()
+
+
 class Runner:
     def __init__(self, ctx, case):
         from valjean.cosette.depgraph import DepGraph, DepGraphError  # noqa
@@ -673,13 +685,20 @@ class Runner:
         self.mut(f'WClose {e}', None, [e, c])
 
     def run(self):
+        signal.signal(signal.SIGALRM, _alarm)
         for op in self.case:
             if self.failed:
                 break
-            if op[0] == 'end':
-                self.end(op[1])
-            else:
-                self.step(op)
+            signal.alarm(20)         # watchdog: an operation that does not end is a failure
+            try:
+                if op[0] == 'end':
+                    self.end(op[1])
+                else:
+                    self.step(op)
+            except Endless:
+                self.fail(f'{op}: the operation does not terminate (20 s)', 'endless')
+            finally:
+                signal.alarm(0)
         return self
 
 
